@@ -57,7 +57,7 @@ Spec == Init /\ [][Next]_vars /\ WF_vars(Next)
 Stop == FALSE /\ UNCHANGED vars          \* NEXT of the *Init.cfg files: enumerate the configurations only
 
 \* ---- what the design guarantees, for every configuration and every behaviour -------------------------------------------
-ModelAccepted == s.err = ""                                     \* the machine accepts its own events (sanity of Step)
+ModelAccepted == s.err = "" /\ s.div = ""                                     \* the machine accepts its own events (sanity of Step)
 TapInRange == \A k \in 1..2 : IsTap(Ctl(cfg, k)) => Ctl(cfg, k).tmin <= s.tap[k] /\ s.tap[k] <= Ctl(cfg, k).tmax
 ReturnFresh == s.out = "return" => ~s.dirty
 RunsBounded == s.rc <= cfg.max_iter + 1
